@@ -270,6 +270,8 @@ pub fn mk_move(f: u8, t: u8, p: &str) -> ChessMove {
         "r" => Some(Piece::Rook),
         "b" => Some(Piece::Bishop),
         "n" => Some(Piece::Knight),
+        "p" => Some(Piece::Pawn),      // not a promotion the rules know: such a value is never a legal move
+        "k" => Some(Piece::King),
         _ => None,
     };
     ChessMove::new(Square::new(f), Square::new(t), promo)
